@@ -334,7 +334,7 @@ def work_invoke(payload, skip, report):
 # --- calls whose NAME is computed by another call ------------------------------------------------------------
 NLIB = {"sel": "other", "th": "ther", "other": "O[{{{1|}}}{{{a|}}}]"}
 # (the tight form "{{{{sel}}}}" is left out: four braces open a parameter reference first)
-NAME_PARTS = [["\n", "{{sel}}"], [" ", "{{sel}}", " "], ["{{sel}}", "x"], ["o", "{{th}}"], ["{{sel}}", "\n"]]
+NAME_PARTS = [["safesubst:other"], ["subst:", "{{sel}}"], ["other<noinclude/>"], ["\n", "{{sel}}"], [" ", "{{sel}}", " "], ["{{sel}}", "x"], ["o", "{{th}}"], ["{{sel}}", "\n"]]
 NAME_ARGS = [[], ["1"], ["{{sel}}"], ["a={{sel}}"], ["{{th}}", "a=2"]]
 NAME_SETS = [None, [], ["sel"], ["other"], ["sel", "other"], ["sel", "th", "other"], ["th"]]
 
@@ -358,7 +358,10 @@ def name_ref(parts, args, te, all_, hooks):
         return text
 
     name_exp = "".join(ev(x, all_) for x in parts)
-    tname = name_exp.strip()
+    # the name of the template: without a <noinclude/> separator and without a substitution modifier
+    tname = name_exp.replace("<noinclude/>", "").strip()
+    for pre in ("subst:", "SUBST:", "safesubst:", "SAFESUBST:"):
+        tname = tname.removeprefix(pre)
     chosen = "{{" not in tname and (all_ or (tname in NLIB and te is not None and tname in te))
     if not chosen:
         return "{{" + name_exp + "".join("|" + ev(a, all_) for a in args) + "}}", tfc, ptfc
@@ -605,7 +608,7 @@ def main(run):
     }
     assumptions = [
         "selection rule taken from the expand() docstring: under pre_expand a template is expanded iff it exists, is not in templates_to_not_expand and is flagged need_pre_expand or in templates_to_expand; without pre_expand everything is expanded",
-        "computed names: %d pages whose call name is produced by another call (5 name shapes x 5 argument lists x 7 selections x pre_expand x hooks) against a 30-line reference written for that family" % (len(NAME_PARTS) * len(NAME_ARGS) * len(NAME_SETS) * 4),
+        "computed names: %d pages whose call name is produced by another call (8 name shapes, three of them with a substitution modifier or a <noinclude/> separator, x 5 argument lists x 7 selections x pre_expand x hooks) against a 30-line reference written for that family" % (len(NAME_PARTS) * len(NAME_ARGS) * len(NAME_SETS) * 4),
         "escaped twins: every sequence of 2..3 forms out of {live, <nowiki/> after the first brace, <nowiki/> before the last brace} of one construct (call, parameter, link) on one page, in one text and as successive expand() calls, x selection x hooks",
         "pipe spelling of parser functions: #if / #ifeq / #switch with every argument vector over 5 argument forms, compared with the colon spelling under every selection x expand_parserfns x hooks (differential)",
         "expand_invoke: a dedicated slice (5 pages with #invoke in bodies / arguments / siblings x switch x pre_expand x hook x repeated calls) with hand-written expectations",
